@@ -135,6 +135,19 @@ CHECKS["C15"]["text"] += " The base password alphabet includes a password with w
 CHECKS["C14"]["text"] += " The base password alphabet includes a password with white space at both ends."
 CHECKS["C16"]["text"] += " Added configuration: a lazily opened workbook whose loaded sheet has a chart over two unloaded sheets, saved by two clones with DIFFERENT sheet lists (one removed the first sheet); oracle: every part except sharedStrings.xml and the sheet parts is byte-identical to the solo save of the same workbook."
 CHECKS["C20"]["text"] += " Added sheets with 1..6 cells whose text no legacy encoding can represent (the replacement is not pinned; structure and all other fields are)."
+CHECKS["C01"]["text"] += " Text atoms include strings that look like the OOXML _xHHHH_ escape (_x0041_, _x000D_, _x005F_)."
+CHECKS["C02"]["text"] += " Every third conditional-format rule of the builders has an empty differential format (dxfId must stay inside the dxfs table)."
+CHECKS["C03"]["text"] += " The style family has <numFmt> elements on ids the library has built-in codes for (14, 44)."
+CHECKS["C04"]["text"] += " Added loaded special: conditional-format rules whose formula is a bare reference to a sheet whose name contains an apostrophe."
+CHECKS["C05"]["text"] += " Added space edit-between-saves: edit-after-load without the reload (the object that has just been saved is edited in place and saved again)."
+CHECKS["C06"]["text"] += " Added space edit-loaded: the first / last loaded item removed, the list reversed, the first rule restyled (merges, names, comments, validations, conditional formats) before saving again; every conditional-format rule of the dump carries a format tag (bold, background, font colour)."
+CHECKS["C07"]["text"] += " Every seed has a third sheet whose title differs from the first sheet's only in case."
+CHECKS["C10"]["text"] += " The alphabet has set_cell with a cell whose coordinate was given as text with $ markers; a stored cell's coordinate must carry none."
+CHECKS["C11"]["text"] += " Added operation copy_sheet_after_read_only_access (read_sheet, get_sheet(i).clone(), edit the owned copy, add_sheet)."
+CHECKS["C13"]["text"] += " A complete xlsx must END with its end-of-central-directory record (the zip reader alone would accept a package followed by the tail of a longer stale file)."
+CHECKS["C15"]["text"] += " Added cases object-replaced: a separate protection object with the case's password replaces one that already verified another password (set_sheet_protection / set_workbook_protection)."
+CHECKS["C18"]["text"] += " Added sub-second instants (x.4, x.5, x.6, x.9 of the last second of every hour, half past) of the representative days: the displayed instant lies within one second of the serial's."
+CHECKS["C20"]["text"] += " Every export is repeated through a healthy sink that accepts 7 bytes per call and must deliver the same bytes."
 for _c in ("C17","C18","C19","C20"):
     CHECKS[_c]["text"] += " SUPPLEMENTARY (never part of the exhaustive claim): spaces named <id>~par run 4 consecutive cases at the same time on free-running threads - sampled interleavings, absolute oracles, so a report is a real wrong result while a clean pass proves nothing; it exists because a lock or cache introduced by a change carries no hook point for the cooperative scheduler."
 for _c in ("C14","C15","C17","C18","C19","C20"):
